@@ -220,6 +220,8 @@ def gen_job(seed, profile="general"):
             mesh["extra_point"] = [0.5 * bb[0], bb[1] + gap] + ([0.5 * bb[2]] if dim == 3 else [])
             if pick == "mpc":
                 extra.append({"type": "MultiPointConstraint", "points": {"axis": 1, "at": "max"}, "centerpoint": {"at": "extra"}, "skip": [r.random() < 0.3 for _ in range(dim)], "multiplier": r.choice([1.0, 10.0, 100.0]), "negative_index": r.random() < 0.5})
+                if not any(extra[-1]["skip"]) and r.random() < 0.6:
+                    extra[-1]["free_centerpoint"] = True  # every axis coupled: the centre point may float
                 if all(extra[-1]["skip"]):
                     extra[-1]["skip"][1] = False
             else:
